@@ -30,7 +30,9 @@ RULE = (
     "assertHasAction / assertHasMessage return the first entry exactly when it exists, has the expected outcome and the "
     "expected fields are a subset (generated sub-, super- and perturbed sets), else raise AssertionError. Non-trivial: two "
     "actions of one type with one a descendant of the other, or a remote child emitted out of level order, or two "
-    "interleaved tasks with the same action type. Distinct = canonical JSON of the case."
+    "interleaved tasks with the same action type. Facet helpers-enum: EVERY program of up to 4 (thorough: 5) nested or "
+    "sequenced actions under one top-level action, each either a `with` action or a new task, each of type a or b "
+    "(bounded-exhaustive). Distinct = canonical JSON of the case."
 )
 ASSUMPTIONS = [
     "logs with unfinished actions make of_type raise ValueError by design and are not generated",
@@ -94,13 +96,32 @@ def preorder(shape):
     return out
 
 
+def _monotype(nodes, mode=1):
+    out = []
+    for node in nodes:
+        node = dict(node)
+        if "atype" in node:
+            # mode 2: new tasks get another type, so equal-typed actions sit at equal levels of different tasks
+            node["atype"] = "app:b" if (mode == 2 and node.get("kind") in ("task", "typed_task")) else "app:a"
+            node["default_type"] = False
+        for part in ("body", "handler", "final"):
+            if node.get(part):
+                node[part] = _monotype(node[part], mode)
+        out.append(node)
+    return out
+
+
 def check(case):
     from .c03 import build_extractors
 
     opts = {"allow_late": True}
     if case.get("extractors"):
         opts["extractors"] = build_extractors(case["extractors"])
-    run = P.run_program(case["program"], sink="memorylogger", opts=opts)
+    program = case["program"]
+    if case.get("monotype"):
+        # every action of the same type: siblings, descendants and other tasks' actions of equal type everywhere
+        program = _monotype(program, case["monotype"])
+    run = P.run_program(program, sink="memorylogger", opts=opts)
     require(not run.errors, "api-raised", lambda: repr(run.errors))
     msgs = run.messages
     if not msgs:
@@ -132,8 +153,15 @@ def check(case):
 
         collect(root)
     types = sorted(set(a.start["action_type"] for a, _ in actions))
+    seen_levels = {}
+    collide = False
+    for a, anc in actions:
+        key = (a.start["action_type"], tuple(a.start["task_level"]))
+        if len(key[1]) > 1 and key in seen_levels and seen_levels[key] != a.start["task_uuid"]:
+            collide = True
+        seen_levels.setdefault(key, a.start["task_uuid"])
     tc = _TC()
-    info = {"actions": len(actions), "same_type_nested": False, "out_of_order": False, "interleaved_same_type": False}
+    info = {"actions": len(actions), "same_type_nested": False, "out_of_order": False, "interleaved_same_type": False, "collide": collide}
     for T in types:
         want_nodes = sorted((a for a, _ in actions if a.start["action_type"] == T), key=lambda a: index[id(a.start)])
         try:
@@ -277,6 +305,8 @@ def classify(case, info):
     for k in ("same_type_nested", "out_of_order", "interleaved_same_type"):
         if info[k]:
             labels.append(k)
+    if info.get("collide"):
+        labels.append("nested-actions-of-equal-type-at-equal-level-in-two-tasks")
     return bool(info["same_type_nested"] or info["out_of_order"] or info["interleaved_same_type"]), labels
 
 
@@ -285,11 +315,59 @@ def strategy():
     from .c03 import extractor_specs
 
     return st.builds(
-        lambda asserts, ex, p: {"asserts": asserts, "extractors": ex, "program": p},
+        lambda mono, asserts, ex, p: {"monotype": mono, "asserts": asserts, "extractors": ex, "program": p},
+        st.sampled_from([0, 0, 1, 2]),
         st.lists(variant, min_size=1, max_size=4),
         st.one_of(st.just([]), extractor_specs()),
         P.programs(max_nodes=12, max_depth=5, remote_weight=2, min_depth=2),
     )
 
 
-FACETS = [Facet("helpers", strategy, check, classify, quick=1200, thorough=30000)]
+def _forests(n):
+    """All ordered forests with n nodes (as nested lists)."""
+    if n == 0:
+        return [[]]
+    out = []
+    for k in range(1, n + 1):
+        # first tree has k nodes (root + forest of k-1), the rest is a forest of n-k
+        for kids in _forests(k - 1):
+            for rest in _forests(n - k):
+                out.append([kids] + rest)
+    return out
+
+
+def _label(forest, choices, pos):
+    nodes = []
+    for kids in forest:
+        kind, atype = choices[pos[0]]
+        pos[0] += 1
+        body = _label(kids, choices, pos)
+        nodes.append(
+            {"op": "action", "exc": 0, "early_finish": 0, "kind": kind, "atype": atype, "sf": {}, "ef": {}, "body": body, "typed": ["id"], "extra_finish": 0, "include_result": False, "default_type": False}
+        )
+    return nodes
+
+
+def enum_runner(mod, facet, tier, seed, shard, nshards, stats):
+    """Every program of up to 4 (thorough: 5) nested/sequenced actions, each a `with` action or a new task, of type a or b."""
+    import itertools
+    from ..core import enumerate_cases
+
+    options = [("with", "app:a"), ("with", "app:b"), ("task", "app:a"), ("task", "app:b")]
+    cases = []
+    for n in range(2, 6 if tier == "thorough" else 5):
+        for forest in _forests(n):
+            if len(forest) != 1:
+                continue  # one top-level action; other tasks are started inside it
+            for choices in itertools.product(options, repeat=n):
+                if choices[0][0] != "with":
+                    continue
+                cases.append({"asserts": [[0, 0, 0, 0, 0]], "extractors": [], "monotype": 0, "program": _label(forest, list(choices), [0])})
+    stats.extra["enumerated_programs"] = len(cases)
+    enumerate_cases(mod, facet, cases, shard, nshards, stats, exhaustive=True)
+
+
+FACETS = [
+    Facet("helpers", strategy, check, classify, quick=1200, thorough=30000),
+    Facet("helpers-enum", None, check, classify, quick=1, thorough=1, runner=enum_runner),
+]
